@@ -105,7 +105,10 @@ def run(ctx):
                 "1-2 goroutines log more than the queue holds (calls block), release, flush; (d) every 25th scenario: a child process "
                 "logs 5-40 entries to a slow file writer and panics under tars.CheckPanic -- the file must hold every entry, once, in "
                 "order, when the process is gone; half of all scenarios log through Infof (text path, with and without prefix), half "
-                "through WriteLog; distinct = distinct event sequences",
+                "through WriteLog, a third through Trace; (e) every 25th scenario: the framework's size-rolled file writer across a re-open "
+                "(the clock of the writer is moved on by 11 s between two flushes), the writes are what the file holds; the panic exits "
+                "alternate between a panic under tars.CheckPanic and tars.Run panicking while it reads a configuration with an unusable "
+                "TLS key; distinct = distinct event sequences",
         "scenarios_by_queue_capacity": {str(k): len(v) for k, v in bycap.items()},
         "panic_exit_scenarios": sum(1 for t in traces if t[0].get("kind") == "panic-exit"),
         "model_checking": {"drain": {"distinct": r.distinct, "generated": r.generated},
